@@ -555,6 +555,30 @@ type mxEvent struct {
 	ParseOK bool    `json:"parseok"` // GoString: the text is a Go composite literal of SubstitutionMatrix
 	Out     [][]any `json:"out"`     // GoString: the (x, y, score) it denotes, in text order
 	Msg     string  `json:"msg"`     // diagnostics only
+	// beyond the listed properties: op "get" (Get(x, y): val = atom of the result), op "stepname" (Step(x).String() = name)
+	X    int    `json:"x"`
+	Y    int    `json:"y"`
+	Val  string `json:"val"`
+	Name string `json:"name"`
+}
+
+// getEvent: SubstitutionMatrix.Get on a pair that is / is not in the matrix
+func getEvent(sid int, m align.SubstitutionMatrix, x, y byte) mxEvent {
+	ev := mxEvent{Sid: sid, Op: "get", M: triples(m), Res: [][]any{}, Out: [][]any{}, X: int(x), Y: int(y)}
+	var v float64
+	ev.Panic, ev.Msg = catch(func() { v = m.Get(x, y) })
+	if !ev.Panic {
+		ev.Val = atom(v)
+	}
+	ev.After = triples(m)
+	return ev
+}
+
+// stepNameEvent: Step.String for any byte value
+func stepNameEvent(sid int, x byte) mxEvent {
+	ev := mxEvent{Sid: sid, Op: "stepname", M: [][]any{}, After: [][]any{}, Res: [][]any{}, Out: [][]any{}, X: int(x)}
+	ev.Panic, ev.Msg = catch(func() { ev.Name = align.Step(x).String() })
+	return ev
 }
 
 // evalByte evaluates a key element of the generated source: a character / integer constant or the
@@ -798,6 +822,24 @@ func matrixDrive(args []string) error {
 				}
 			}
 			return m
+		}
+		// beyond the listed properties: Get (documented to panic on a missing pair) and Step.String
+		{
+			m := randomMatrix([]float64{1, -2.5, 0, 1e6})
+			keys := triples(m)
+			for i := 0; i < 6; i++ {
+				x, y := letterPool[r.Intn(len(letterPool))], letterPool[r.Intn(len(letterPool))]
+				if i%2 == 0 && len(keys) > 0 {
+					k := keys[r.Intn(len(keys))]
+					x, y = byte(k[0].(int)), byte(k[1].(int))
+				}
+				emit(getEvent(sid, m, x, y))
+			}
+			if sid == 0 {
+				for x := 0; x < 256; x++ {
+					emit(stepNameEvent(sid, byte(x)))
+				}
+			}
 		}
 		switch sid % 4 {
 		case 0, 1: // Symmetrical on partial matrices, with and without mirrored conflicts
